@@ -589,3 +589,7 @@ def run(ck):
     ck.floor("SIB/ref-conditions", _cp.check(ck, prog("K1"), "SIB/ref-conditions", only={"inflate.c:inflateEnd", "deflate.c:deflateEnd", "inflate.c:inflateInit2",
              "deflate.c:deflateInit2", "inflate.c:inflateCopy", "deflate.c:deflateCopy", "gzread.c:gzclose_r", "gzwrite.c:gzclose_w"}), 20)
     ck.assumptions += ["rustc MIR", "listed infeasible exits and discard exceptions (one reason each)", "K1 = Rust allocator, K2 = C allocator"]
+
+# session 5 (round 10)
+EXPLANATION = EXPLANATION + " " + (
+    'REL/path-owned-before-exit: once gz_strdup has succeeded, no return of gzopen_help avoids the store of the copy into state.source (free_state releases it from there).')
